@@ -4,8 +4,8 @@
    (VStd), cache/tiny.LRUCache (VTiny) and per shard for the wide variants with any shard count and any routing.
    Models: C04_Model.v (machine level: int64 arithmetic, nil dereference, the tiny code paths, the wide facade),
    LRUOps.v (ideal LRU: recency list + trim).  This file contains statements closed by `exact` only. *)
-From Coq Require Import ZArith List Lia Bool.
-Require Import LRU Shard LRUOps C04_Model C04_Refine C04_Wide C04_Theorems C04_Check C04_Burst C04_Sia.
+From Coq Require Import ZArith List Lia Bool Permutation.
+Require Import LRU Shard LRUOps C04_Model C04_Refine C04_Wide C04_Theorems C04_Check C04_Burst C04_Sia C04_Rem.
 Import ListNotations.
 Open Scope Z_scope.
 
@@ -165,6 +165,19 @@ Proof. exact sia_every_linearisation. Qed.
 Theorem c04_first_insert_is_never_replaced : forall ops m k p, assoc k m = Some p -> assoc k (fst (frun m ops)) = Some p.
 Proof. exact frun_stable. Qed.
 
+(* "the values reported as removed always agree ... also when operations are issued concurrently": SetAndGetRemoved of
+   pairwise distinct fresh keys, in EVERY order of the calls: the inserted values are, as a multiset, the values reported as
+   removed together with the values still cached (each value is reported by exactly one call or is still there), and the
+   eviction counter counts the reported values.  The model is value-semantic: a reported list is a value and cannot change
+   later (the monitors held_ok / rem_ok compare every slice a caller kept with its copy taken at return time). *)
+Theorem c04_rem_every_linearisation : forall v cap0 ops,
+  cap_dom cap0 -> Forall op_dom ops -> Forall sagr_op ops -> NoDup (map okey ops) ->
+  let c := fst (mrun v (new_lru cap0) ops) in
+  let reported := flat_map rvals (snd (mrun v (new_lru cap0) ops)) in
+  Permutation (map oval ops) (reported ++ map valof (lst c)) /\
+  evs c = Z.of_nat (length reported) /\ size c = total (lst c) /\ size c <= cap c /\ NoDup (keys_of c).
+Proof. exact rem_every_linearisation. Qed.
+
 (* non-vacuity: the hypotheses are satisfiable and the operations do evict (sized, tiny, wide) *)
 Theorem c04_demo_sized :
   let ops := [Set_ 1 10 2; Set_ 2 20 2; Get 1; Set_ 3 30 2; Peek 1; Exist 2; SetAndGetRemoved 1 11 4; Set_ 4 40 9; Set_ 5 50 1; Set_ 6 60 1;
@@ -220,6 +233,7 @@ Print Assumptions c04_burst_every_linearisation.
 Print Assumptions c04_burst_writes_wf.
 Print Assumptions c04_sia_every_linearisation.
 Print Assumptions c04_first_insert_is_never_replaced.
+Print Assumptions c04_rem_every_linearisation.
 Print Assumptions c04_demo_sized.
 Print Assumptions c04_demo_tiny.
 Print Assumptions c04_demo_wide.
